@@ -1,7 +1,7 @@
 """C01, C02 (and later C04, C05, C16, C17): floating-point solve monitors on harness/h_solve.cpp"""
 import os, sys
 sys.path.insert(0, os.path.dirname(os.path.dirname(os.path.abspath(__file__))))
-from props import two_flavour, COMMON_ASSUME  # noqa: E402
+from props import two_flavour, memcheck_stage, COMMON_ASSUME  # noqa: E402
 
 HARNESSES = {
     'h_solve': dict(src='h_solve.cpp', insts=['inst_soplex']),
@@ -99,9 +99,9 @@ PROPS = {
                    'both directions under modifications, parameter changes, solves and destruction of the other object (ASan watches dangling '
                    'pointers). Sampling of inputs x configurations x history points.',
         level_note='floating-point mode; exact-mode copies are exercised in the C03/C07 harness; cross-process comparison not built',
-        technique='runtime monitoring: bitwise snapshot comparison of twin/copy objects over seeded API histories under ASan+UBSan',
-        stages=two_flavour('h_solve', 1200, 5000, 25000, 80000),
-        minima=lambda t: {'c17.twin_solves': 200, 'c17.resolve_after_clearBasis': 150, 'c17.copy_resolve_compared': 150,
+        technique='runtime monitoring: bitwise snapshot comparison of twin/copy objects over seeded API histories under ASan+UBSan, plus valgrind memcheck (uninitialised state carried by copies)',
+        stages=lambda t: two_flavour('h_solve', 1200, 5000, 25000, 80000)(t) + [memcheck_stage('h_solve', 96, 3200)(t)],
+        minima=lambda t: {'memcheck.cases_completed': 90, 'c17.twin_solves': 200, 'c17.resolve_after_clearBasis': 150, 'c17.copy_resolve_compared': 150,
                           'c17.independence_next_solve_compared': 200},
         eval_counter='cases', distinct_set='nontrivial',
         rule='case k -> (LP family, seeded LP, configuration, scenario: twins / re-solve / copy at point p by ctor or assignment, victim and '
